@@ -56,7 +56,8 @@ func init() {
 			{Name: "stats", Num: 2, Type: TMessage, TypeName: p + "Int64Msg", Ext: []ExtV{flatten(), flattenPrefix("s_")}},
 		}}
 		text := M{Name: "Text", Fields: []F{{Name: "body", Num: 1, Type: TString}}}
-		image := M{Name: "Image", Fields: []F{{Name: "url", Num: 1, Type: TString}, {Name: "width", Num: 2, Type: TInt32}}}
+		image := M{Name: "Image", Fields: []F{{Name: "url", Num: 1, Type: TString}, {Name: "width", Num: 2, Type: TInt32},
+			{Name: "alt_text", Num: 3, Type: TString}, {Name: "byte_size", Num: 4, Type: TInt64}}}
 		oneofm := M{Name: "OneofMsg", Oneofs: []O{{Name: "content", Ext: []ExtV{oneofConfig("type", false)}}}, Fields: []F{
 			{Name: "id", Num: 1, Type: TString},
 			{Name: "text", Num: 2, Type: TMessage, TypeName: p + "Text", Oneof: "content"},
